@@ -163,8 +163,13 @@ func ruleC19(c *Ctx) {
 		if st == holds {
 			for _, tb := range []string{always, onSym, onAT} {
 				switch {
-				case seen[tb] > 1:
+				case seen[tb] > 1 && len(pair.pen) == 3:
 					st, why = broken, fmt.Sprintf("%d penalty terms are added %s", seen[tb], describe[tb])
+				case seen[tb] > 1:
+					// more package-level H/S terms than the three penalties: what the extra ones are is not read
+					if st != broken {
+						st, why = unknown, fmt.Sprintf("%d package-level terms are added %s (of %d in all; the model knows three penalties)", seen[tb], describe[tb], len(pair.pen))
+					}
 				case seen[tb] == 0 && len(pair.pen) == 3:
 					st, why = broken, "no penalty term is added "+describe[tb]
 				case seen[tb] == 0 && st == holds:
@@ -570,7 +575,13 @@ func santaLuciaRest(c *Ctx, nnTable string) {
 			}
 		})
 	}
-	c.check(len(writes) == 0, "DEPEND", "no state carried between calls", sl.Pos(), "SantaLucia and its helpers write no package-level state", "results may depend on earlier calls: "+strings.Join(writes, "; "))
+	// (whether such a write makes one call's answer depend on another's is what the shared STATE rules decide:
+	// a table built once, a pooled buffer returned after use are writes too)
+	if len(writes) == 0 {
+		c.ok("DEPEND", "no state carried between calls", sl.Pos(), "SantaLucia and its helpers write no package-level state")
+	} else {
+		c.undecided("DEPEND", "no state carried between calls", sl.Pos(), "package-level state is written ("+strings.Join(writes, "; ")+"); whether a result can depend on an earlier call is judged by the STATE rules")
+	}
 
 	// TERM: MeltingTemp, MarmurDoty
 	checkReturnIs(c, "TERM", "MeltingTemp=SantaLucia(s,500e-9,50e-3,0)[0]", w.fn("primers", "MeltingTemp"), 0, "extract[0](call[poly/primers.SantaLucia](param[0], const[5e-07], const[0.05], const[0]))", "defaults 500 nM oligo, 50 mM sodium, no magnesium; first result")
